@@ -138,6 +138,34 @@ def step : Sexp → Option Sexp
         match dupOutcome A g kernel suffix msuffix with
         | .failed => pure (list [atom "error", atom "transformationerror"])
         | .ok ks => pure (list (atom "ok" :: (ks.filter (fun k => k.contains '#')).map ofName))
+  | list (atom "fargs" :: rest) => do
+      let strict ← bool1? (field? "strict" rest)
+      let fp ← bool1? (field? "fullparse" rest)
+      let seeds ← names? (← field? "seeds" rest)
+      let fakeDir : Name := "/t/Proj_X".toList
+      let gcall? : Sexp → Option GCall := fun x =>
+        match x with
+        | list [atom "c", n] => (nm? n).map GCall.plain
+        | list [atom "d", d, n] => do pure (GCall.ifdef (← nm? d) (← nm? n))
+        | list [atom "n", d, n] => do pure (GCall.ifndef (← nm? d) (← nm? n))
+        | _ => none
+      let routine? : Sexp → Option (Name × Name × List GCall) := fun x =>
+        match x with
+        | list (atom "r" :: n :: f :: cs) => do pure (← nm? n, ← nm? f, ← cs.mapM gcall?)
+        | _ => none
+      let key? : Sexp → Option (Name × List Name) := fun x =>
+        match x with
+        | list (atom "k" :: atom kind :: r :: ds) => do
+            let r ← nm? r
+            let ds ← names? ds
+            let pre : Name := if kind = "dir" then fakeDir ++ ['/'] else if kind = "DIR" then fakeDir.map Char.toUpper ++ ['/'] else []
+            pure (pre ++ r, ds)
+        | _ => none
+      let routines ← (← field? "routines" rest).mapM routine?
+      let keys ← (← field? "keys" rest).mapM key?
+      let A := faAbs fakeDir routines keys
+      let cfg : Config := { neutralCfg with strict := strict }
+      pure (graphSexp A (schedule A cfg seeds fp))
   | list [atom "item", a, b] => do
       let a ← nm? a
       let b ← nm? b
